@@ -46,6 +46,11 @@ pub struct Shape {
     /// 1 = all in the far future (2200), k >= 2 = the newest k-1 directories in the future, the rest in the past
     #[serde(default)]
     pub time_mode: u32,
+    /// what the populated directories hold: 0 = start chunk + two intermediate chunks everywhere; otherwise the
+    /// content varies per directory (no start chunk: 002-I/003-I; a lone end chunk 055-E; names that are not chunk
+    /// names at all), because "first chunk" means the first listed object, not the chunk called 001-S
+    #[serde(default)]
+    pub content_mode: u32,
 }
 
 impl Shape {
@@ -118,7 +123,13 @@ impl ShapeWorld {
         for d in 1..=self.shape.n {
             if let Some(t) = self.shape.time_of(d) {
                 // several chunks in the directory; the first listed one carries the directory's upload time
-                for k in 0..3usize {
+                let names: Vec<String> = match if self.shape.content_mode == 0 { 0 } else { (d * 7 + self.shape.content_mode as usize) % 4 } {
+                    0 => vec!["20240804-101007-001-S".into(), "20240804-101007-002-I".into(), "20240804-101007-003-I".into()],
+                    1 => vec!["20240804-101007-002-I".into(), "20240804-101007-003-I".into()],
+                    2 => vec!["20240804-101007-055-E".into()],
+                    _ => vec!["0-first-object".into(), "zz-last-object".into()],
+                };
+                for (k, name) in names.iter().enumerate() {
                     // the listing timestamps may lie in the client's future (clock skew): the statement
                     // speaks of the most recent upload, not of uploads before "now"
                     let back = 1_000_000 - t;
@@ -131,7 +142,7 @@ impl ShapeWorld {
                     let secs = base + t * 10 + k as i64;
                     let dt = chrono::DateTime::<chrono::Utc>::from_timestamp(secs, 0).expect("valid time");
                     objects.push(ListedObject {
-                        key: format!("{}/{}/20240804-101007-{:03}-{}", self.site, d, k + 1, if k == 0 { "S" } else { "I" }),
+                        key: format!("{}/{}/{}", self.site, d, name),
                         last_modified: dt.format("%Y-%m-%dT%H:%M:%S.000Z").to_string(),
                         size: "1234".into(),
                     });
@@ -159,7 +170,7 @@ impl World for ShapeWorld {
         let total = objects.len();
         objects.truncate(max_keys.unwrap_or(1000).min(1000));
         let truncated = objects.len() < total;
-        Response::xml(list_document(req.bucket(), &prefix, &objects, truncated, true, true, max_keys))
+        Response::xml(list_document(req.bucket(), &prefix, &objects, truncated, self.shape.content_mode % 2 == 0, self.shape.newest % 2 == 0, max_keys))
     }
 }
 
@@ -233,6 +244,7 @@ pub fn classify(s: &Shape) -> CaseInfo {
         .class(s.populated > 0 && s.populated < s.n && s.newest == s.populated, "gap-at-end")
         .class(s.time_mode == 1, "upload-times-in-the-future")
         .class(s.time_mode >= 2, "upload-times-straddle-now")
+        .class(s.content_mode != 0, "directories-without-start-chunk")
 }
 
 pub fn run(ctx: &Ctx, rep: &mut Report) {
@@ -256,7 +268,7 @@ pub fn run(ctx: &Ctx, rep: &mut Report) {
                             let mut newest = 1 + w;
                             while newest <= n {
                                 for populated in 1..=n {
-                                    let s = Shape { n, newest, populated, time_mode: 0 };
+                                    let s = Shape { n, newest, populated, time_mode: 0, content_mode: 0 };
                                     let r = crate::runner::guard(|| check_search_shape(&s)).unwrap_or_else(|p| Err(Fail::new("panic:oracle-or-code", p)));
                                     if let Err(f) = r {
                                         if fails.iter().all(|(g, _)| g.sig != f.sig) {
@@ -277,7 +289,7 @@ pub fn run(ctx: &Ctx, rep: &mut Report) {
                     rep.record_failure("search-shapes", f, json!(s));
                 }
             }
-            let empty = Shape { n, newest: 1, populated: 0, time_mode: 0 };
+            let empty = Shape { n, newest: 1, populated: 0, time_mode: 0, content_mode: 0 };
             if let Err(f) = check_search_shape(&empty) {
                 rep.record_failure("search-shapes", f, json!(empty));
             }
@@ -297,10 +309,10 @@ pub fn run(ctx: &Ctx, rep: &mut Report) {
     // (ii) the real entry point over HTTP
     {
         let fixed: Vec<Shape> = {
-            let mut v = vec![Shape { n: 999, newest: 1, populated: 0, time_mode: 0 }];
+            let mut v = vec![Shape { n: 999, newest: 1, populated: 0, time_mode: 0, content_mode: 0 }];
             for p in [1usize, 2, 500, 997, 998, 999] {
                 for c in [1usize, 2, 500, 998, 999] {
-                    v.push(Shape { n: 999, newest: p, populated: c, time_mode: ((p + c) % 4) as u32 });
+                    v.push(Shape { n: 999, newest: p, populated: c, time_mode: ((p + c) % 4) as u32, content_mode: ((p * 3 + c) % 5) as u32 });
                 }
             }
             v
@@ -323,7 +335,7 @@ pub fn run(ctx: &Ctx, rep: &mut Report) {
             let pos = || prop_oneof![6 => 1usize..=999, 1 => Just(1usize), 1 => Just(999usize), 1 => Just(998usize), 1 => 1usize..=5, 1 => 995usize..=999];
             let cnt = prop_oneof![6 => 1usize..=999, 1 => Just(1usize), 1 => Just(999usize), 1 => Just(0usize), 2 => 1usize..=20, 1 => 980usize..=999];
             let mode = prop_oneof![3 => Just(0u32), 2 => Just(1u32), 2 => 2u32..=6, 1 => 2u32..=600];
-            (pos(), cnt, mode).prop_map(|(newest, populated, time_mode)| Shape { n: 999, newest, populated, time_mode })
+            (pos(), cnt, mode, 0u32..6).prop_map(|(newest, populated, time_mode, content_mode)| Shape { n: 999, newest, populated, time_mode, content_mode })
         },
         classify,
         check_http_shape,
